@@ -5,7 +5,7 @@ RULE = ("packet signatures with windows built as k*d for each candidate divisor 
         "list is the first hit somewhere, with deliberate collisions), MSS around 100, both IP versions, header "
         "lengths 40..120, peer MSS incl. <12; plus SYN / SYN+ACK wire packets whose signature is built by from_packet() with the peer MSS "
         "passed as fingerprint_tcp passes it, and signatures that match the packet in everything but carry mss*N / mtu*N with N the packet's multiplier or one off (peer MSS equal to / 12 above the own MSS, windows k*peer, k*(peer-12)); non-trivial = the model finds a multiplier (value != -1); distinct by input")
-GEN_TIE = True     # the anchored decision functions are also TRANSLATED from /repo's source on every run and proved equal to the model
+GEN_TIE = ['match']     # the anchored decision functions are also TRANSLATED from /repo's source on every run and proved equal to the model
 ASSUMPTIONS = ["'timestamp present' is read as ts1 != 0 (p0f's and the code's rule)"]
 EXHAUSTIVE = {"mss 95..105 x win in {k*mss, k*(mss-12)} small grid": True}
 
